@@ -5,19 +5,93 @@ number of times shifts the whole series."""
 import datetime as dt
 import itertools
 
+import numpy as np
+
 import finam as fm
 
 START = dt.datetime(2000, 1, 1)
 
 
 def gen(rng):
+    r = rng.random()
+    if r < 0.25:
+        # one generator (static or stepping) with two outputs whose callbacks draw from one shared counter
+        return {"part": "pkg", "shape": "two_outputs", "static": rng.random() < 0.6, "steps": [rng.choice([1, 2]), rng.choice([1, 2, 3])],
+                "days": rng.randint(3, 7)}
+    if r < 0.45:
+        # producer >> StackTime >> consumer, and a second consumer of the same producer with a longer step
+        return {"part": "pkg", "shape": "stack", "src_step": 1, "steps": [rng.choice([2, 3]), rng.choice([3, 4, 5])],
+                "days": rng.randint(6, 12)}
     n_mid = rng.choice([1, 1, 2])
     return {"part": "pkg", "mids": [{"initial_pull": rng.random() < 0.5, "step": rng.choice([1, 2, 3])} for _ in range(n_mid)],
             "src_step": rng.choice([1, 1, 2]), "sink_step": rng.choice([1, 2, 4]), "sink_pull": rng.random() < 0.7,
             "days": rng.randint(4, 10)}
 
 
+def _recorder(name, step, series, counting, pull=True):
+    def rec(n, inp, t):
+        if inp is not None:
+            series.setdefault(name, []).append([t.isoformat(), [float(x) for x in fm.data.get_magnitude(inp["In"]).reshape(-1)]])
+        return {}
+    return fm.components.CallbackComponent(inputs={"In": fm.Info(time=None, grid=None, units=None)}, outputs={},
+                                           callback=counting(name, rec), start=START, step=dt.timedelta(days=step), initial_pull=pull)
+
+
+def run_special(case, order):
+    calls, series = {}, {}
+
+    def counting(name, f):
+        def cb(*a):
+            calls[name] = calls.get(name, 0) + 1
+            return f(calls[name], *a)
+        return cb
+
+    if case["shape"] == "two_outputs":
+        shared = {"n": 0}
+
+        def draw(*_a):
+            shared["n"] += 1
+            return float(shared["n"])
+
+        info = lambda: fm.Info(time=None, grid=fm.NoGrid(), units="")  # noqa
+        if case["static"]:
+            gen_c = fm.components.StaticCallbackGenerator({"A": (draw, info()), "B": (draw, info())})
+        else:
+            gen_c = fm.components.CallbackGenerator({"A": (draw, info()), "B": (draw, info())}, START, dt.timedelta(days=1))
+        ra = _recorder("a", case["steps"][0], series, counting)
+        rb = _recorder("b", case["steps"][1], series, counting)
+        comps = [gen_c, ra, rb]
+        links = [("A", ra), ("B", rb)]
+    else:
+        grid = fm.UniformGrid((3, 2))
+        gen_c = fm.components.CallbackGenerator(
+            {"Out": (lambda t: np.full((2, 1), float(t.toordinal() % 100)), fm.Info(time=None, grid=grid, units=""))},
+            START, dt.timedelta(days=case["src_step"]))
+        ra = _recorder("stack", case["steps"][0], series, counting)
+        rb = _recorder("plain", case["steps"][1], series, counting)
+        comps = [gen_c, ra, rb]
+        links = [("Out", None), ("Out", rb)]
+    res = {"error": None}
+    try:
+        comp = fm.Composition([comps[i] for i in order], log_level="ERROR")
+        for a, b in links:
+            if b is None:
+                gen_c.outputs[a] >> fm.adapters.StackTime() >> ra.inputs["In"]
+            else:
+                gen_c.outputs[a] >> b.inputs["In"]
+        comp.run(start_time=START, end_time=START + dt.timedelta(days=case["days"]))
+    except Exception as e:  # noqa
+        res["error"] = type(e).__name__
+        res["msg"] = str(e)[:200]
+    res["series"] = [[k, v] for k, v in sorted(series.items())]
+    res["calls"] = dict(sorted(calls.items()))
+    res["final"] = [c.time.isoformat() if getattr(c, "time", None) else None for c in comps[1:]]
+    return res
+
+
 def run_order(case, order):
+    if case.get("shape"):
+        return run_special(case, order)
     info = lambda: fm.Info(time=None, grid=fm.NoGrid(), units="")  # noqa
     calls = {}
 
@@ -69,7 +143,7 @@ def run_order(case, order):
 
 def check(case):
     """returns None or (required, observed)"""
-    n = len(case["mids"]) + 2
+    n = 3 if case.get("shape") else len(case["mids"]) + 2
     first = None
     for order in itertools.permutations(range(n)):
         r = run_order(case, list(order))
